@@ -28,6 +28,24 @@ def body_assigned(node):
     return names
 
 
+MUTATORS = {'append', 'pop', 'extend', 'insert', 'remove', 'clear', 'update', 'add', 'discard', 'setdefault', 'sort', 'reverse'}
+
+
+def body_mutated_locals(node):
+    """local names whose (container) value is mutated in place by the loop body: x[i] = .., x[i] op= .., del x[i], x.append(..)"""
+    out = set()
+    for n in ast.walk(ast.Module(body=node.body, type_ignores=[])):
+        if isinstance(n, (ast.Assign, ast.AugAssign, ast.Delete)):
+            tgts = n.targets if isinstance(n, (ast.Assign, ast.Delete)) else [n.target]
+            for t in tgts:
+                if isinstance(t, ast.Subscript) and isinstance(t.value, ast.Name):
+                    out.add(t.value.id)
+        elif isinstance(n, ast.Call) and isinstance(n.func, ast.Attribute) and isinstance(n.func.value, ast.Name) \
+                and n.func.attr in MUTATORS:
+            out.add(n.func.value.id)
+    return out
+
+
 def _tgt(t, out):
     if isinstance(t, ast.Name):
         out.add(t.id)
@@ -92,6 +110,20 @@ def havoc(ip, node, frame, spec):
                 frame.locals_dropped = getattr(frame, 'locals_dropped', set()) | {name}
                 continue
             frame.locals[name] = fresh_like(ip, cur, name, kind)
+    for name in sorted(body_mutated_locals(node)):
+        cur = frame.locals.get(name)
+        if isinstance(cur, SymSeq):
+            n = fresh_like(ip, cur, name)
+            cur.arr, cur.n, cur.facts = n.arr, n.n, None
+        elif isinstance(cur, SymMap):
+            n = fresh_like(ip, cur, name)
+            cur.dom, cur.val, cur.size = n.dom, n.val, n.size
+        elif isinstance(cur, (PyList, PyDict, PySet)):
+            k = spec.havoc_kinds.get(name)
+            if k is None:
+                raise Unsupported('local container %s of concrete shape is mutated in a loop cut by an invariant: '
+                                  'declare havoc_kinds[%r]' % (name, name))
+            frame.locals[name] = fresh_like(ip, cur, name, k)
     roots = _roots(frame)
     for p in spec.havoc:
         if p.startswith('ghost.'):
@@ -101,9 +133,14 @@ def havoc(ip, node, frame, spec):
             havoc_path(ip, roots, p, spec.havoc_kinds)
 
 
-def _allowed(ip, frame, spec):
+def _allowed(ip, frame, spec, node=None):
     roots = _roots(frame)
     allowed = set()
+    if node is not None:
+        for name in body_mutated_locals(node):
+            cur = frame.locals.get(name)
+            if isinstance(cur, (SymSeq, SymMap, PyList, PyDict, PySet)):
+                allowed.add((id(cur), '*'))
     for p in spec.havoc:
         if p.startswith('ghost.'):
             continue
@@ -128,7 +165,7 @@ def end_of_iteration(ip, node, frame, spec, extra, head_snap, variant0):
                       z3.And(ops.term(v1, 'int') < variant0, variant0 >= 0))
     # loop frame: everything the body changed must be in the declared havoc set
     fd = FrameDiff(ip, head_snap)
-    for desc, cond in fd.diffs(_allowed(ip, frame, spec)):
+    for desc, cond in fd.diffs(_allowed(ip, frame, spec, node)):
         ip.ctx.oblige('%s/loop@%s:frame/%s' % (ip.verifying_key, spec.label or node.lineno_label, desc),
                       z3.BoolVal(False) if cond is False else cond,
                       detail='location written by the loop body but not in the declared havoc set')
